@@ -41,7 +41,7 @@ def msgInfo (env : Env) (ids : AttrIds) (m : AMsg) : MsgInfo :=
     | some c => c.intDefaults.any (·.1 == a)
     | none => false
   let reqMissing := defs.filter fun d =>
-    d.required && !d.isList && !intDefault d.attr && !(d.vendor == 0 && m.present.contains d.code)
+    d.required && !d.isList && !intDefault d.attr && !(m.present.contains (d.vendor * 4294967296 + d.code))
   let validateRaises := reqMissing.any fun d => (lookupDict env.dict d.code d.vendor).isNone
   -- the answer class
   let acls := match mc with
